@@ -725,6 +725,152 @@ proof {
 """),
     ])
 
+merge_all = Fn(F_MIN, 'Minimizer', 'merge_transitions', props=P, attrs='#[verifier::loop_isolation(false)] #[verifier::allow_complex_invariants]',
+    spec="""
+requires
+    exists|n: int| part_ok(pv(partition@), n) && merged_inv(tv_edges(old(transitions)@), pv(partition@), old(transitions)@, Map::<StateID, StateID>::empty(), n),
+    all_nonempty(pv(partition@)),
+ensures
+    // one entry per group survives (that of its least member), holding the edges of all members
+    exists|n: int, ab: AbV| part_ok(pv(partition@), n) && #[trigger] merged_inv(tv_edges(old(transitions)@), pv(partition@), final(transitions)@, ab, n) && all_done(pv(partition@), ab),
+""",
+    edits=TRACE + [
+        Ins('body_start', None, """
+broadcast use axiom_stateid_cmp;
+let ghost p = pv(partition@);
+let ghost tv_in = transitions@;
+let ghost e0 = tv_edges(tv_in);
+let ghost n = choose|n: int| part_ok(p, n) && merged_inv(e0, p, tv_in, Map::<StateID, StateID>::empty(), n);
+let ghost mut ab: AbV = Map::empty();
+proof {
+    assert(groups_disjoint(p)) by {
+        reveal(groups_disjoint);
+        assert forall|g: int, h: int, x: StateID| 0 <= g < p.len() && 0 <= h < p.len() && #[trigger] p[g].contains(x) && #[trigger] p[h].contains(x) implies g == h by {
+            assert(StateID(x.0 as int as u32) == x);
+            assert(in_grp(p, g, x.0 as int) && in_grp(p, h, x.0 as int));
+        }
+    }
+}
+"""),
+        ForLoop('for group in partition {', it='__it1', label='merge_all.groups', spec="""
+invariant
+    __it1.obeys_prophetic_iter_laws(), __it1.decrease() is Some, p == pv(partition@), part_ok(p, n), groups_disjoint(p), all_nonempty(p),
+    __it1.remaining().len() <= partition@.len(),
+    forall|q: int| 0 <= q < __it1.remaining().len() ==> *#[trigger] __it1.remaining()[q] == partition@[partition@.len() - __it1.remaining().len() + q],
+    merged_inv(e0, p, transitions@, ab, n),
+    forall|g: int| 0 <= g < partition@.len() - __it1.remaining().len() ==> #[trigger] grp_done(p, ab, g),
+    forall|g: int| partition@.len() - __it1.remaining().len() <= g < p.len() ==> #[trigger] grp_untouched(p, ab, g),
+ensures __it1.remaining().len() == 0,
+decreases __it1.decrease()->0
+"""),
+        Ins('after', 'for group in partition {', """
+let ghost gi = partition@.len() - __it1.remaining().len() - 1;
+let ghost ab_in = ab;
+proof { assert(*group == partition@[gi]); assert(group@ == p[gi]); assert(grp_untouched(p, ab, gi)); }
+"""),
+        Ins('before', 'continue;', """
+proof {
+    lemma_single_done(p, ab, gi);
+    assert forall|g: int| 0 <= g < gi + 1 implies #[trigger] grp_done(p, ab, g) by { }
+}
+"""),
+        Ins('after_stmt', 'let representative_state_id = $_;', """
+let ghost r = *representative_state_id;
+proof {
+    assert(set_nonempty(p[gi]));
+    assert(has_ord_key::<StateID>()) by { axiom_key_stateid(r); }
+    assert(grp_min(p, gi, r)) by {
+        assert forall|z: StateID| #[trigger] p[gi].contains(z) implies r.0 <= z.0 by { axiom_key_stateid(r); axiom_key_stateid(z); }
+    }
+}
+"""),
+        Replace('E11', 'for state_id in group.iter().skip(1) { $body }', """
+let mut __its = group.iter();
+let ghost grem = __its.remaining();
+proof {
+    assert(grem.unref().to_set() == group@);
+    axiom_set_iter_ascending(grem);
+    assert(grem.len() >= 1) by { if grem.len() == 0 { assert(!grem.unref().to_set().contains(r)); } }
+    // the first element yielded is the least one: the representative
+    assert(*grem[0] == r) by {
+        assert(grem.unref()[0] == *grem[0]); assert(grem.unref().contains(*grem[0])); assert(grem.unref().to_set().contains(*grem[0])); assert(p[gi].contains(*grem[0]));
+        assert(grem.unref().to_set().contains(r)); assert(grem.unref().contains(r));
+        let j = choose|j: int| 0 <= j < grem.unref().len() && grem.unref()[j] == r;
+        assert(*grem[j] == r);
+        if j > 0 { assert(grem[0].0 < grem[j].0); }
+    }
+}
+let __skipped = __its.next();
+proof {
+    assert forall|j: int| 0 <= j < grem.len() implies !ab.contains_key(*#[trigger] grem[j]) by {
+        assert(grem.unref()[j] == *grem[j]); assert(grem.unref().contains(*grem[j])); assert(grem.unref().to_set().contains(*grem[j])); assert(p[gi].contains(*grem[j]));
+    }
+}
+loop
+    //@label merge_all.members
+    invariant
+        __its.obeys_prophetic_iter_laws(), __its.decrease() is Some, 1 <= grem.len(), *grem[0] == r, grp_min(p, gi, r), 0 <= gi < p.len(),
+        grem.unref().to_set() == p[gi], forall|i: int, j: int| 0 <= i < j < grem.len() ==> (#[trigger] grem[i]).0 < (#[trigger] grem[j]).0,
+        __its.remaining().len() < grem.len(),
+        forall|q: int| 0 <= q < __its.remaining().len() ==> #[trigger] __its.remaining()[q] == grem[grem.len() - __its.remaining().len() + q],
+        merged_inv(e0, p, transitions@, ab, n), !ab.contains_key(r),
+        forall|j: int| 1 <= j < grem.len() - __its.remaining().len() ==> ab.contains_key(*#[trigger] grem[j]) && ab[*grem[j]] == r,
+        forall|j: int| grem.len() - __its.remaining().len() <= j < grem.len() ==> !ab.contains_key(*#[trigger] grem[j]),
+        forall|g: int| 0 <= g < gi ==> #[trigger] grp_done(p, ab, g),
+        forall|g: int| gi < g < p.len() ==> #[trigger] grp_untouched(p, ab, g),
+    ensures __its.remaining().len() == 0,
+    decreases __its.decrease()->0
+{
+    let ghost k0 = grem.len() - __its.remaining().len();
+    let Some(state_id) = __its.next() else { break };
+    let ghost x = *state_id;
+    let ghost tv0 = transitions@;
+    let ghost ab0 = ab;
+    proof {
+        assert(state_id == grem[k0]);
+        assert(grem.unref()[k0] == x); assert(grem.unref().contains(x)); assert(grem.unref().to_set().contains(x)); assert(p[gi].contains(x));
+        assert(r.0 < x.0) by { assert(grem[0].0 < grem[k0].0); }
+        assert(x.0 < n && r.0 < n);
+        assert(tv_has(tv0, r) && tv_has(tv0, x));
+    }
+    $body
+    proof {
+        let (rp, sp) = choose|rp: int, sp: int| merged_one(tv0, transitions@, r, x, rp, sp);
+        lemma_merge_step(e0, p, tv0, transitions@, ab0, n, r, x, rp, sp, gi);
+        ab = ab0.insert(x, r);
+        assert forall|g: int| 0 <= g < gi implies #[trigger] grp_done(p, ab, g) by {
+            assert(grp_done(p, ab0, g));
+            let r2 = choose|r2: StateID| #[trigger] grp_min(p, g, r2) && !ab0.contains_key(r2) && forall|y: StateID| #[trigger] p[g].contains(y) && y != r2 ==> ab0.contains_key(y) && ab0[y] == r2;
+            assert(r2 != x) by { if r2 == x { reveal(groups_disjoint); assert(p[g].contains(x) && p[gi].contains(x)); } }
+            assert(grp_min(p, g, r2) && !ab.contains_key(r2));
+            assert forall|y: StateID| #[trigger] p[g].contains(y) && y != r2 implies ab.contains_key(y) && ab[y] == r2 by {
+                assert(y != x) by { if y == x { reveal(groups_disjoint); assert(p[g].contains(x) && p[gi].contains(x)); } }
+            }
+        }
+        assert forall|g: int| gi < g < p.len() implies #[trigger] grp_untouched(p, ab, g) by {
+            assert(grp_untouched(p, ab0, g));
+            assert forall|y: StateID| #[trigger] p[g].contains(y) implies !ab.contains_key(y) by { if y == x { reveal(groups_disjoint); assert(p[g].contains(x) && p[gi].contains(x)); } }
+        }
+        assert forall|j: int| k0 + 1 <= j < grem.len() implies !ab.contains_key(*#[trigger] grem[j]) by { assert(grem[k0].0 < grem[j].0); }
+    }
+}
+proof {
+    assert(grp_done(p, ab, gi)) by {
+        assert forall|y: StateID| #[trigger] p[gi].contains(y) && y != r implies ab.contains_key(y) && ab[y] == r by {
+            assert(grem.unref().to_set().contains(y)); assert(grem.unref().contains(y));
+            let j = choose|j: int| 0 <= j < grem.unref().len() && grem.unref()[j] == y;
+            assert(*grem[j] == y);
+            assert(j >= 1);
+        }
+    }
+    assert forall|g: int| 0 <= g < gi + 1 implies #[trigger] grp_done(p, ab, g) by { }
+}
+""", why='`it.skip(1)` advances the iterator once before iterating (std definition); then E1; loop body kept verbatim'),
+        Ins('body_end', None, """
+proof { assert(all_done(p, ab)); }
+"""),
+    ])
+
 update_stub = Fn(F_MIN, 'Minimizer', 'update_transitions', props=P, external_body=True, trusted_reason='TEMPORARY: under construction',
     spec="""
 requires
@@ -1042,6 +1188,7 @@ FUNCS = [
     new_partition,
     add_rep,
     merge_one,
+    merge_all,
     update_stub,
     create_from_partition,
     minimize,
